@@ -518,6 +518,9 @@ def gen_psid_sweep(ctx):
     return w.history()
 
 
+# subjects whose issuing permissions have several entries: an 'all' entry in any position claims everything
+MULTI_ENTRY_SUBJECTS = [([36], [([36], 1), ("all", 1)]), ([36], [("all", 1), ([36], 1)]), ([36], [([36], 1), ([37], 1)]),
+                        ([36], [([36], 1), ([99], 1)]), ([36, 37], [([36], 2), ([37], 1), ("all", 1)])]
 MULTI_ENTRY_ISSUERS = [[([36], 1), ([37, 638], 1)], [("all", 1), ([36], 1)], [([36], 1), ("all", 1)], [([36], 0), ([37], 1)],
                        [([36, 37], 2), ([638], 1), ([139], 3)]]
 
@@ -899,11 +902,13 @@ def run(ctx):
                 "unit_sweep")
     run_history(ctx, gen_psid_sweep(ctx), "psid_sweep")
     for ip in MULTI_ENTRY_ISSUERS:
-        run_history(ctx, gen_perm_sweep(ctx, ip, subj if not quick else subj[::3]), "perm_sweep_multi")
+        run_history(ctx, gen_perm_sweep(ctx, ip, (subj if not quick else subj[::3]) + MULTI_ENTRY_SUBJECTS), "perm_sweep_multi")
+    for ip in ([(U[:2], 1)], [(U, 1)], [("all", 1)]):
+        run_history(ctx, gen_perm_sweep(ctx, ip, MULTI_ENTRY_SUBJECTS), "perm_sweep_multi")
     for root_perm in ([("all", 1)], [("all", 2)], [("all", 3)], [(U[:3], 1)], [(U[:3], 2)], [(U[:3], 3)],
                       [(U[:2], 2), (U[2:], 1)], [("all", 2), (U[:1], 1)]):
         for want in ([(U[:2], 1)], [("all", 1)], [(U[:1], 1), (U[1:3], 1)]):
-            if quick and ctx.rng.random() < 0.5:
+            if quick and ctx.rng.random() < 0.7:
                 continue
             h = init_api_history(ctx, root_perm, want, max(n for _, n in root_perm) + 1)
             if h is not None:
@@ -926,6 +931,15 @@ def replay(ctx, data):
     f = data.get("failure") or (data.get("broken") or [{}])[-1].get("first")
     ctx.model = common.Model(MODEL_NAME)
     print(json.dumps({k: v for k, v in f.items() if k != "input"}, default=str)[:2000])
+    if not (f.get("input") or {}).get("history"):
+        # found by the oracle on OwnCertificate.initialize_certificate (no library history): regenerate from seed and tier
+        ctx.rng.seed(data.get("seed", ctx.seed))
+        ctx.tier = data.get("tier", "quick")
+        run(ctx)
+        want = f.get("class") or f.get("relation")
+        hits = [r for r in ctx.failures + list(ctx.known_hits.values()) if r.get("class") == want]
+        print("REPRODUCED" if hits else "NOT REPRODUCED")
+        return 1 if hits else 0
     run_history(ctx, f["input"]["history"], "replay")
     bad = ctx.failures or ctx.mismatches or ctx.known_hits
     print("REPRODUCED" if bad else "NOT REPRODUCED")
